@@ -1,4 +1,7 @@
+#[cfg(not(jgilchrist_tcheran_verif))]
 use std::sync::atomic::{AtomicBool, Ordering};
+#[cfg(jgilchrist_tcheran_verif)]
+use crate::verif_seam::sync::atomic::{AtomicBool, Ordering};
 use std::sync::Arc;
 use std::time::{Duration, Instant};
 
@@ -17,6 +20,9 @@ pub struct TimeStrategy {
     next_check_at: u64,
 
     force_stop: Arc<AtomicBool>,
+
+    #[cfg(jgilchrist_tcheran_verif)]
+    sim_epoch: crate::verif_seam::Epoch,
 }
 
 pub struct Control {
@@ -97,12 +103,33 @@ impl TimeStrategy {
             next_check_at: params::CHECK_TERMINATION_NODE_FREQUENCY,
 
             force_stop,
+
+            #[cfg(jgilchrist_tcheran_verif)]
+            sim_epoch: crate::verif_seam::limits(
+                time_control,
+                soft_stop,
+                hard_stop,
+                game.player,
+                move_overhead,
+            ),
+        };
+
+        #[cfg(jgilchrist_tcheran_verif)]
+        let time_strategy = {
+            let mut time_strategy = time_strategy;
+            time_strategy.next_check_at = crate::verif_seam::poll_interval(time_strategy.next_check_at);
+            time_strategy
         };
 
         (time_strategy, control)
     }
 
     pub fn elapsed(&self) -> Duration {
+        #[cfg(jgilchrist_tcheran_verif)]
+        if let Some(simulated) = crate::verif_seam::elapsed(&self.sim_epoch) {
+            return simulated;
+        }
+
         self.started_at.elapsed()
     }
 
@@ -123,6 +150,13 @@ impl TimeStrategy {
     }
 
     pub fn should_stop(&mut self, nodes_visited: u64) -> bool {
+        // Lets the simulator observe the answer of the (unchanged) body below.
+        #[cfg(jgilchrist_tcheran_verif)]
+        if crate::verif_seam::enter_should_stop(&self.sim_epoch, nodes_visited) {
+            let answer = self.should_stop(nodes_visited);
+            return crate::verif_seam::leave_should_stop(&self.sim_epoch, nodes_visited, answer);
+        }
+
         if nodes_visited < self.next_check_at {
             return false;
         }
@@ -133,6 +167,12 @@ impl TimeStrategy {
 
         self.next_check_at = nodes_visited + params::CHECK_TERMINATION_NODE_FREQUENCY;
 
+        #[cfg(jgilchrist_tcheran_verif)]
+        {
+            self.next_check_at = nodes_visited
+                + crate::verif_seam::poll_interval(params::CHECK_TERMINATION_NODE_FREQUENCY);
+        }
+
         match self.time_control {
             TimeControl::Clocks(_) => self.elapsed() > self.hard_stop,
             TimeControl::ExactTime(time) => self.elapsed() > time,
@@ -141,6 +181,11 @@ impl TimeStrategy {
     }
 
     fn is_force_stopped(&self) -> bool {
+        #[cfg(jgilchrist_tcheran_verif)]
+        if crate::verif_seam::stop_poll(&self.sim_epoch) {
+            return true;
+        }
+
         self.force_stop.load(Ordering::Relaxed)
     }
 }
